@@ -57,6 +57,7 @@ func (w *World) AfterStep(s *kernel.Sim) {
 	for _, k := range gone {
 		if !w.released[k] {
 			s.Logf("call %s ended unanswered", k)
+			w.ctlGone(w.open[k])
 			if strings.Contains(k, ".src|") {
 				s.Probe("src.call-abandoned-or-timed-out")
 			}
@@ -128,14 +129,21 @@ func (w *World) harvest(inc *incarnation) {
 	}
 	// a one-shot run that reports success has migrated the whole history it verified
 	if hasRV && !w.prof.Continuous && !inc.Cancelled && ps != nil && ps.STHKnown && inc.hist == w.src.Honest {
-		for i := 0; i < ps.STHSize; i++ {
+		lo, hi := w.wantRange(ps.STHSize)
+		for i := lo; i < hi; i++ {
 			if w.dst.At(int64(i)) == nil {
-				s.Violate("gap-after-successful-run", "missing-index", "c%d returned nil after a pass that verified source size %d, but destination index %d is empty (stored extent %d, start_index %d)",
-					inc.ID, ps.STHSize, i, w.storedExtent(), w.prof.StartIndex)
+				s.Violate("gap-after-successful-run", "missing-index", "c%d returned nil after a pass that verified source size %d, but destination index %d is empty (stored extent %d, start_index %d, end_index %d: configured range [%d,%d))",
+					inc.ID, ps.STHSize, i, w.storedExtent(), w.prof.StartIndex, w.prof.EndIndex, lo, hi)
 				return
 			}
 		}
 		s.Probe("oneshot.success-complete")
+		if hi < ps.STHSize {
+			s.Probe("oneshot.success-complete.end-index-bounded")
+		}
+		if lo >= hi {
+			s.Probe("oneshot.success-complete.empty-range")
+		}
 	}
 }
 
@@ -180,7 +188,7 @@ func (w *World) inconsistent(inc *incarnation, ps *pass) bool {
 // one-shot Run* returning nil, or Controller.Run going on to its next pass) against a source whose STH
 // is not consistent with the destination root, without a verifying proof, has not refused the source.
 func (w *World) successOnInconsistent(inc *incarnation, ps *pass, how string) {
-	if ps.GateOpen || !w.inconsistent(inc, ps) {
+	if ps.GateOpen || w.prof.NoCheck || !w.inconsistent(inc, ps) {
 		return
 	}
 	rel := "larger than"
@@ -207,6 +215,12 @@ func (w *World) arrival(p *kernel.Parked) {
 			// pass of the same run means that the previous one was concluded as a success
 			if prev := inc.Pass; prev != nil && w.prof.RunMode == "run" && prev.Excuse == "" {
 				w.successOnInconsistent(inc, prev, "concluded the pass quietly and went on to the next one")
+				if w.s.Violated() {
+					return
+				}
+			}
+			if prev := inc.Pass; prev != nil {
+				w.ctlPassEnd(inc, prev)
 				if w.s.Violated() {
 					return
 				}
@@ -246,6 +260,10 @@ func expectedIdentity(e *srcEntry) []byte { return sha256sum(e.CertData) }
 // addArrival checks one AddSequencedLeaves request.
 func (w *World) addArrival(inc *incarnation, ps *pass, req *trillian.AddSequencedLeavesRequest) {
 	s := w.s
+	if w.mode.Ctl {
+		w.ctlArrival(inc, ps, req)
+		return
+	}
 	ps.Submitted++
 	if len(req.GetLeaves()) == 0 {
 		return
@@ -261,7 +279,7 @@ func (w *World) addArrival(inc *incarnation, ps *pass, req *trillian.AddSequence
 		}
 	}
 	// consistency gate
-	if !ps.RootKnown || (ps.RootSize > 0 && !ps.GateOpen) {
+	if !ps.RootKnown || (ps.RootSize > 0 && !ps.GateOpen && !w.prof.NoCheck) {
 		why := ps.GateWhy
 		if !ps.RootKnown {
 			why = "no-root"
@@ -361,10 +379,48 @@ func (w *World) noteDelivered(inc *incarnation, req *trillian.AddSequencedLeaves
 		if w.prof.Continuous && inc.Passes >= 2 && lf.LeafIndex >= int64(w.prof.N0) {
 			w.s.Probe("continuous.growth-migrated")
 		}
+		if int(lf.LeafIndex) < len(inc.hist.Entries) {
+			switch k := inc.hist.Entries[lf.LeafIndex].Kind; {
+			case strings.HasSuffix(k, ".nonfatal"):
+				w.s.Probe("entry.nonfatal-x509-error.copied")
+			case strings.HasSuffix(k, ".nochain"):
+				w.s.Probe("entry.empty-chain.copied")
+			}
+		}
 		if int(lf.LeafIndex) < len(inc.hist.Entries) && strings.HasSuffix(inc.hist.Entries[lf.LeafIndex].Kind, ".bad") {
 			w.s.Probe("unparsable.copied")
 		}
 	}
+}
+
+// wantRange is the index range a complete run has to have mirrored for a source of the given size.
+// Continuous runs are documented to ignore start_index and end_index; one-shot runs fetch
+// [start_index (negative: the destination tree size, below which everything is there already),
+// end_index (0: the STH size)).
+func (w *World) wantRange(size int) (lo, hi int) {
+	hi = size
+	if w.prof.Continuous {
+		return 0, hi
+	}
+	if w.prof.StartIndex > 0 {
+		lo = int(w.prof.StartIndex)
+	}
+	if e := int(w.prof.EndIndex); e > 0 && e < hi {
+		hi = e
+	}
+	return lo, hi
+}
+
+// wholeLogWanted: the configured range leaves no hole below it and no tail beyond it.
+func (w *World) wholeLogWanted() bool {
+	if w.prof.Continuous {
+		return true
+	}
+	prefix := 0
+	if len(w.prof.Stored) > 0 {
+		prefix = w.prof.Stored[0][1]
+	}
+	return int(w.prof.StartIndex) <= prefix && (w.prof.EndIndex == 0 || int(w.prof.EndIndex) >= w.src.Size)
 }
 
 // closePass runs the end-of-pass checks of the incarnation's current pass.
@@ -385,7 +441,7 @@ func (w *World) closePass(inc *incarnation, why string) {
 		if rec.Retried {
 			continue
 		}
-		if ps.Excuse != "" {
+		if ps.Excuse != "" || w.mode.Ctl { // C16ctl leaves the quota clause to C20
 			s.Probe("quota.pass-ended-excused")
 			continue
 		}
@@ -403,7 +459,8 @@ func (w *World) closePass(inc *incarnation, why string) {
 	}
 	if ps.STHKnown && ps.Delivered > 0 && ps.Excuse == "" {
 		complete := true
-		for i := 0; i < ps.STHSize; i++ {
+		lo, hi := w.wantRange(ps.STHSize)
+		for i := lo; i < hi; i++ {
 			if w.dst.At(int64(i)) == nil {
 				complete = false
 				break
@@ -451,15 +508,20 @@ func (w *World) Finish(s *kernel.Sim) {
 	if !ranInSettle {
 		return
 	}
-	for i := 0; i < w.src.Size; i++ {
+	lo, hi := w.wantRange(w.src.Size)
+	for i := lo; i < hi; i++ {
 		if w.dst.At(int64(i)) == nil {
 			state := "controller still running"
 			if !w.alive() {
 				state = "controller returned"
 			}
-			s.Violate("liveness", "tail-not-completed", "after the settle phase (faults off, %d settle restart) destination index %d of %d is still empty; %s; stored extent %d integrated %d", w.settleRestarts, i, w.src.Size, state, w.storedExtent(), w.dst.RootSize)
+			s.Violate("liveness", "tail-not-completed", "after the settle phase (faults off, %d settle restart) destination index %d of the configured range [%d,%d) (source size %d) is still empty; %s; stored extent %d integrated %d", w.settleRestarts, i, lo, hi, w.src.Size, state, w.storedExtent(), w.dst.RootSize)
 			return
 		}
+	}
+	if !w.wholeLogWanted() {
+		s.Probe("settled.configured-range-complete")
+		return // a hole below start_index / a tail beyond end_index is there by configuration
 	}
 	if int(w.dst.RootSize) != w.src.Size || w.dst.PendingCount() != 0 {
 		s.Violate("end-state", "not-contiguous", "after the final sequencer step the destination has size %d with %d leaves not integrated; source size %d", w.dst.RootSize, w.dst.PendingCount(), w.src.Size)
